@@ -4,6 +4,7 @@
 From Coq Require Import List NArith ZArith Arith Lia Bool.
 Import ListNotations.
 From MSP Require Import Base.Src Model.Mszip Model.Lzx Proofs.NoWrite Proofs.LzxSafe.
+From MSP Require Proofs.LzxAcct.
 From RecordUpdate Require Import RecordSet.
 Import RecordSetNotations.
 Local Open Scope N_scope.
@@ -297,3 +298,31 @@ Proof.
       destruct (K _ _ _ ELc Nl _ _ _ ELr Nr) as [Kr Ki]. subst rl il. rewrite Hc in H2. inversion H2. split; reflexivity.
 Qed.
 End Resume.
+
+(* the same in terms of lzx_call (one lzxd_decompress call with its sticky error, as Model/Chm.v and Model/Oab.v use it): a call for a
+   bytes that returns OK followed by a call for b bytes = one call for a + b bytes - same status, same bytes written, and the same
+   decoder state when the status is OK *)
+Theorem lzx_call_resumable L s i a b s1 i1 st2 s2 i2 stc sc ic : Core L s -> err s = 0 -> Dd s + (a + b) < 70368744177664 ->
+  lzx_call L s i a = (0, s1, i1) ->
+  lzx_call L s1 i1 b = (st2, s2, i2) -> st2 <> 99 ->
+  lzx_call L s i (a + b) = (stc, sc, ic) -> stc <> 99 ->
+  stc = st2 /\ ic = i2 /\ (stc = 0 -> sc = s2).
+Proof.
+  intros HC He Hb H1 H2 N2 Hc Nc. unfold lzx_call in *.
+  destruct (ideal EofPad2 L (decompress a s) i) as [ra ia] eqn:Ea.
+  destruct ra as [[e|[[] sa]]|e]; try (inversion H1; subst; fail).
+  - (* a failure status is never 0 (Proofs/LzxAcct.v) *)
+    exfalso. assert (e = 0) by (inversion H1; reflexivity). subst e.
+    assert (Ho : olen i = olen i + 0) by lia.
+    destruct (acct_run _ _ EofPad2 L _ _ (LzxAcct.decompress_acct a s) (olen i) i _ _ Ho Ea) as (w' & _ & _ & Cq). cbn in Cq. destruct Cq as [Cq _]. apply Cq. reflexivity.
+  - inversion H1; subst sa ia. clear H1.
+    destruct (ideal EofPad2 L (decompress b s1) i1) as [rb ib] eqn:Eb. destruct (ideal EofPad2 L (decompress (a + b) s) i) as [rcc icc] eqn:Ec.
+    assert (Nb : nofuel rb). { destruct rb as [[e|[[] x]]|e]; cbn; try exact I. intro; subst e. inversion H2; subst. congruence. }
+    assert (Ncc : nofuel rcc). { destruct rcc as [[e|[[] x]]|e]; cbn; try exact I. intro; subst e. inversion Hc; subst. congruence. }
+    destruct (decompress_resumable EofPad2 L a b s i s1 i1 rcc icc rb ib HC He Hb Ea Ec Ncc Eb Nb) as [Er Ei]. subst rcc icc.
+    destruct rb as [[e|[[] x]]|e]; inversion H2; inversion Hc; subst; repeat split; try reflexivity; intro Z; try reflexivity; exfalso.
+    + assert (Ho : olen i = olen i + 0) by lia.
+      destruct (acct_run _ _ EofPad2 L _ _ (LzxAcct.decompress_acct (a + b) s) (olen i) i _ _ Ho Ec) as (w' & _ & _ & Cq). cbn in Cq. destruct Cq as [Cq _]. apply Cq. exact Z.
+    + apply ideal_stop in Ec. subst. cbn in Z. discriminate.
+  - exfalso. assert (e = 0) by (inversion H1; reflexivity). subst e. apply ideal_stop in Ea. cbn in Ea. discriminate.
+Qed.
